@@ -112,9 +112,7 @@ class World(object):
             self.net._YowNetworkLayer__create_dispatcher = factory
             # stack loop: one deferred callback per call
             self._set(ys, "time", type("T", (), {"sleep": staticmethod(lambda s_: (_ for _ in ()).throw(_StopLoop()))})())
-            Q = ys.YowStack._YowStack__detachedQueue
-            while Q.qsize():
-                Q.get(False)
+            core.drain_detached()
             # keep-alive thread: managed thread + virtual time
             vt = type("VT", (), {})()
             # virtual time: one ping period elapses per PingTick for EVERY sleeping keep-alive thread (also one that was told to stop
